@@ -316,7 +316,7 @@ func (cf *conditionFinder) condition(m uint32) string {
 }
 
 // coreMask: predicates used to name cases that cannot be separated from passing ones (kept short)
-const coreMask = uint32(1<<0 | 1<<1 | 1<<2 | 1<<3)
+const coreMask = uint32(1<<0 | 1<<3)
 
 func condName(m uint32) string {
 	if m == 0 {
